@@ -10,6 +10,7 @@ import (
 	"google.golang.org/grpc/codes"
 	"google.golang.org/grpc/status"
 	"google.golang.org/protobuf/types/known/fieldmaskpb"
+	"google.golang.org/protobuf/types/known/timestamppb"
 
 	"github.com/smart-core-os/sc-api/go/traits"
 	"github.com/smart-core-os/sc-golang/pkg/resource"
@@ -130,17 +131,43 @@ func meterScenario(s *hx.Seq) {
 	if s.Thorough {
 		depth = 4
 	}
+	// configurations: none; an initial reading with usage and both times; with usage and a start time only
+	for cfgI, cfgName := range []string{"", "initial(usage,start,end) ", "initial(usage,start) "} {
+		cfgI, cfgName := cfgI, cfgName
+		if !meterRun(s, ops, depth, cfgI, cfgName) {
+			return
+		}
+	}
+	s.Sample("every sequence (depth 3 / 4) of RecordReading, Reset and UpdateMeterReading with a stepping clock: start <= end, Record moves end to now and keeps start, Reset sets both; also from a model constructed with an initial reading")
+}
+
+func meterRun(s *hx.Seq, ops []string, depth int, cfgI int, cfgName string) bool {
+	t0, t1 := epoch.Add(-48*time.Hour), epoch.Add(-24*time.Hour)
+	ok := true
 	seqs(len(ops), depth, func(path []int) bool {
 		s.Eval(1)
 		s.Trans(len(path))
-		name := names(path, ops)
+		name := cfgName + names(path, ops)
 		s.State(name)
 		clk := &stepClock{epoch}
-		m := meterpb.NewModel(resource.WithClock(clk))
+		mopts := []resource.Option{resource.WithClock(clk)}
 		start, end := epoch, epoch
+		wantUsage := float32(0)
+		switch cfgI {
+		case 1:
+			mopts = append(mopts, resource.WithInitialValue(&traits.MeterReading{Usage: 12.5, StartTime: timestamppb.New(t0), EndTime: timestamppb.New(t1)}))
+			start, end, wantUsage = t0, t1, 12.5
+		case 2:
+			mopts = append(mopts, resource.WithInitialValue(&traits.MeterReading{Usage: 12.5, StartTime: timestamppb.New(t0)}))
+			start, end, wantUsage = t0, epoch, 12.5
+		}
+		m := meterpb.NewModel(mopts...)
 		r0, _ := m.GetMeterReading()
-		if r0.StartTime == nil || r0.EndTime == nil || !r0.StartTime.AsTime().Equal(start) || !r0.EndTime.AsTime().Equal(end) {
-			s.Fail("meter-initial", fmt.Sprintf("a new meter reads %v, start and end should be the clock's time", r0), nil)
+		if r0.StartTime == nil || r0.EndTime == nil || !r0.StartTime.AsTime().Equal(start) || !r0.EndTime.AsTime().Equal(end) || r0.Usage != wantUsage {
+			if len(path) == 1 && path[0] == 0 {
+				s.Fail("meter-initial "+cfgName, fmt.Sprintf("a new meter reads %v; expected usage %v, start %v, end %v (what it was configured with, the clock's time for what was not configured)", r0, wantUsage, start, end), nil)
+			}
+			ok = false
 			return false
 		}
 		for step, oi := range path {
@@ -206,7 +233,7 @@ func meterScenario(s *hx.Seq) {
 		}
 		return !s.Stop()
 	})
-	s.Sample("every sequence (depth 3 / 4) of RecordReading, Reset and UpdateMeterReading with a stepping clock: start <= end, Record moves end to now and keeps start, Reset sets both")
+	return ok || cfgI > 0
 }
 
 // ---------------------------------------------------------------- publication
